@@ -22,7 +22,15 @@ def _is_lookup_of(recv: Term, owner: Term) -> bool:
     has_owner = any(x == owner for x in subterms(r))
     rooted = any(key(x) in ("self.simulator", "self") for x in subterms(r))
     foreign = [x for x in subterms(r) if x[0] == "attr" and x[2].endswith("agent_id") and x != owner]
-    return has_owner and rooted and not foreign
+    return has_owner and rooted and not foreign and not _other_fields(r, owner)
+
+
+def _other_fields(recv: Term, owner: Term) -> List[str]:
+    """fields of the occurrence (the record / order the id `owner` is read from) that the receiver depends on besides the id"""
+    if owner[0] != "attr":
+        return []
+    base = owner[1]
+    return sorted({x[2] for x in subterms(strip_ver(recv)) if x[0] == "attr" and x[1] == base and x != owner})
 
 
 def _agent_lookup(idterm):
@@ -49,6 +57,7 @@ def r1(ctx: Ctx) -> None:
             body = [x for x in cm.node.body if not (isinstance(x, _ast.Expr) and isinstance(x.value, _ast.Constant))]
             if len(body) == 1 and isinstance(body[0], _ast.Return) and body[0].value is not None and _ast.unparse(body[0].value) == "self.order.agent_id":
                 owners.append(("attr", b.elem, "agent_id"))  # Cancel.agent_id is the id of the cancelled order's agent
+        owners.append(strip_ver(("attr", b.accept.term, "agent_id")))  # the record's own agent id: the order's, by the field map of the records (C11.H3)
         good = [e for e in cbs if e.name == cb_name and kw(e, "log", 0) == b.accept.term and e.recv is not None and any(_is_lookup_of(e.recv, o) for o in owners)]
         ok = len(cbs) == 1 and len(good) == 1 and evs.index(good[0]) > i
         if not cbs:
@@ -158,6 +167,10 @@ def r2(ctx: Ctx) -> None:
                     else:
                         ctx.unrec(f, dfr[0][0].node, f"{b.phase} {b.kind}: buyer and seller of each fill are told once each", "callbacks are deferred in closures; when they run is not modelled")
                     continue
+                via = sorted({x for e in cbs if e.recv is not None for o_ in ("buy_agent_id", "sell_agent_id") for x in _other_fields(e.recv, ("attr", el, o_)) if not x.endswith("agent_id")})
+                if not ok and via and len(cbs) == 2 and not bp.conds:
+                    ctx.unrec(f, l.node, f"{b.phase} {b.kind}: buyer and seller of each fill are told once each", f"the agents are found through other fields of the record ({', '.join(via)}): whether that leads to the buyer and the seller is not decided", "; ".join(short(e.recv)[:80] for e in cbs))
+                    continue
                 ctx.check(ok, f, l.node, f"{b.phase} {b.kind}: buyer and seller of each fill are told once each", "id2agent[log.buy_agent_id].executed_order(log), id2agent[log.sell_agent_id].executed_order(log)",
                           "; ".join(f"{short(e.recv)}.executed_order(log={short(kw(e, 'log', 0))})" for e in cbs) or "none")
         # notification comes after the whole round has been applied to holdings
@@ -190,3 +203,10 @@ def h2(ctx: Ctx) -> None:
 
     settle_rule(ctx)
     returned_rule(ctx)
+
+
+@rule("C11.H3", "mechanism shared with C10: the record a market makes of an order / cancel / fill carries the ids of the order(s) it is about (so the agent found under the record's agent id is the owner)", "T10 field provenance (same rule as C10.R3)", floor=10)
+def h3(ctx: Ctx) -> None:
+    from .c10 import r3 as record_fields_rule
+
+    record_fields_rule(ctx)
